@@ -298,6 +298,80 @@ def helper_cursor(P, R, fns, rule='C13.CUR.2'):
                  key='helper-start:%s' % g.name)
     return n
 
+def helper_outputs(P, R, fns, rule='C13.INIT.1'):
+    """A result the helper hands back through a pointer is read only when the helper has produced it: where the helper
+    has returning paths that never store through the parameter (all of them return 0), every later use of the local
+    whose address was passed is dominated by the test that the helper's return value is non-zero.  Testing something
+    else (a cursor the return value was added to) lets a failed parse be used as an address."""
+    keys = {f.key: f for f in fns}
+    n = 0
+    for f in fns:
+        for s in f.sites():
+            ev = s.ev
+            call = None
+            if ev['k'] == 'call':
+                call, tgt = ev, None
+                # the same call seen again as the value of the statement that follows: judged there
+                nxt = f.block_sites(s.bid)[s.idx + 1:s.idx + 2]
+                if nxt and nxt[0].ev['k'] in ('store', 'decl') and any(x.get('k') == 'callref' and x.get('callee') == ev.get('callee') and [sx(a) for a in x.get('args', [])] == [sx(a) for a in ev.get('args', [])]
+                                                                         for x in walk(nxt[0].ev.get('init') if nxt[0].ev['k'] == 'decl' else nxt[0].ev.get('rhs'))):
+                    continue
+            else:
+                val = ev.get('init') if ev['k'] == 'decl' else ev.get('rhs') if ev['k'] == 'store' else None
+                for x in walk(val) if isinstance(val, dict) else ():
+                    if x.get('k') == 'callref':
+                        call = x
+                tgt = ev.get('var') if ev['k'] == 'decl' else (ev['lhs']['name'] if ev['k'] == 'store' and is_var(ev.get('lhs')) else None)
+                plain = isinstance(val, dict) and val.get('k') == 'callref' and (ev['k'] == 'decl' or ev.get('op') == '=')
+            if call is None or not call.get('callee'):
+                continue
+            g = P.direct_target(f, call['callee'])
+            if g is None or g.key not in keys or g.key == f.key:
+                continue
+            for j, a in enumerate(call.get('args', [])):
+                if not (isinstance(a, dict) and a.get('k') == 'un' and a.get('op') == '&' and is_var(a.get('e')) and a['e'].get('sc') == 'local') or j >= len(g.params):
+                    continue
+                v, pj = a['e']['name'], g.params[j]
+
+                def g_event(st, t, pj=pj):
+                    e2 = t.ev
+                    l2 = e2.get('lhs') or {}
+                    if e2['k'] == 'store' and l2.get('k') == 'un' and l2.get('op') == '*' and is_var(l2.get('e'), pj):
+                        return True
+                    return st
+                gb, _, _, _ = g.forward(False, g_event, None)
+                silent = [t for t in g.sites() if t.ev['k'] == 'ret' and False in gb.get(t.key, set())]
+                if not silent:
+                    continue
+                if not all(const_of(t.ev.get('val')) == 0 for t in silent):
+                    R.note('%s: %s has a path that neither stores through %s nor returns 0; not judged' % (rule, g.name, pj))
+                    continue
+                # uses of v behind the call
+                uses = []
+                after = f.reach([e.dst for e in f.out[s.bid]])
+                for t in f.sites():
+                    if (t.bid == s.bid and t.idx > s.idx) or (t.bid in after and t.key != s.key and t.bid != s.bid):
+                        if any(is_var(x, v) for ex in _event_exprs(t.ev) for x in walk(ex)):
+                            # handing the address to the same helper again is not a use of the value
+                            again = t.ev['k'] == 'call' and t.ev.get('callee') == call['callee'] or any(x.get('k') == 'callref' and x.get('callee') == call['callee'] for ex in _event_exprs(t.ev) for x in walk(ex))
+                            if not again:
+                                uses.append(t)
+                ok_all = True
+                for t in uses:
+                    gs = f.guards(t.bid)
+                    ok = False
+                    for gr in gs:
+                        l, op, rr = gr
+                        if const_of(rr) == 0 and op in ('!=', '>'):
+                            if ev['k'] != 'call' and plain and tgt and is_var(l, tgt):
+                                ok = True
+                            if isinstance(l, dict) and l.get('k') == 'callref' and l.get('callee') == call['callee']:
+                                ok = True
+                    n += 1
+                    R.ob(rule, ok, t, 'in %s the value %s filled in by %s is used only behind the test that %s succeeded (returned non-zero)' % (f.name, v, g.name, g.name),
+                         key='helper-output:%s:%s' % (f.name, v))
+    return n
+
 def _ret0_block(f, bid):
     """the block only returns the constant 0"""
     ss = f.block_sites(bid)
@@ -400,6 +474,8 @@ def run(P, R, tier):
     hex_table(P, R)
     full_range(P, R, fns)
     helper_cursor(P, R, fns)
+    helper_outputs(P, R, fns)
+    R.floor('C13.INIT.1', 2, 'uses of the dotted-quad helper\'s output')
     R.floor('C13.CUR.2', 1, 'the dotted-quad helper called on a saved start')
     R.floor('C13.TAB.4', 4, 'full-range acceptance: embedded copy, two prefix bounds, mask residue')
     R.floor('C13.CUR.1', 2, 'the parser and its helper scan the input with an index cursor')
